@@ -29,8 +29,8 @@ FEAT = {'patterns': False}
 
 
 def alias_after(lab, ref, spec, root, st, res, witness):
-    if not root.get('context'):
-        return
+    if not root.get('context') and len(json.dumps(spec['files'])) % 5 >= 2:
+        return      # (without a context: only the part about values shared between configs / tasks applies; checked on a share of the cases)
     r = lab.run([{'op': 'alias_check', 'chain': 'a', 'root': root}])
     if session_problem(r):
         res.inconclusive.append(session_problem(r))
